@@ -138,6 +138,42 @@ func TestVerifReturnedSlices(t *testing.T) {
 					lib.D("msg", msg, "sig_before", sig0, "sig_after", sig1, "public_before", keep, "public_after", []byte(now)))
 			}
 		}
+		// GenerateKey hands out the public key next to the private one: it is
+		// the caller's too
+		{
+			pub, sk, err := ed25519.GenerateKey(lib.NewRng("c05/returned-slices/gen25519", i))
+			if err == nil {
+				keep := lib.Clone(pub)
+				sig0 := ed25519.Sign(sk, msg)
+				for j := range pub {
+					pub[j] = 0xEE
+				}
+				sig1 := ed25519.Sign(sk, msg)
+				now := sk.Public().(ed25519.PublicKey)
+				lib.Count("returned-slices:histories")
+				if !lib.Eq(sig0, sig1) || !lib.Eq(now, keep) || !ed25519.Verify(ed25519.PublicKey(keep), msg, sig1) {
+					lib.Violation("C05:signature-changes-after-writing-to-returned-slice:ed25519.GenerateKey", mon,
+						lib.D("msg", msg, "sig_before", sig0, "sig_after", sig1, "public_before", keep, "public_after", []byte(now)))
+				}
+			}
+		}
+		{
+			pub, sk, err := ed448.GenerateKey(lib.NewRng("c05/returned-slices/gen448", i))
+			if err == nil {
+				keep := lib.Clone(pub)
+				sig0 := ed448.Sign(sk, msg, "")
+				for j := range pub {
+					pub[j] = 0xEE
+				}
+				sig1 := ed448.Sign(sk, msg, "")
+				now := sk.Public().(ed448.PublicKey)
+				lib.Count("returned-slices:histories")
+				if !lib.Eq(sig0, sig1) || !lib.Eq(now, keep) || !ed448.Verify(ed448.PublicKey(keep), msg, sig1, "") {
+					lib.Violation("C05:signature-changes-after-writing-to-returned-slice:ed448.GenerateKey", mon,
+						lib.D("msg", msg, "sig_before", sig0, "sig_after", sig1, "public_before", keep, "public_after", []byte(now)))
+				}
+			}
+		}
 		{
 			sk := ed448.NewKeyFromSeed(r.Bytes(57))
 			ctx := string(r.Bytes(r.Intn(4)))
